@@ -606,6 +606,8 @@ class Repo:
                         c._parent = n
         from .inline import inline_new_private_helpers
         self.inlined_calls = inline_new_private_helpers(self)
+        from .temps import fold_new_temporaries
+        self.folded_temps = fold_new_temporaries(self) if os.environ.get("VSA_FOLD_TEMPS", "1") == "1" else 0
         ypath0 = os.path.join(pkgdir, "core", "attributes.yml")
         if os.path.exists(ypath0):
             self.attrs = AttrView(load_yaml(ypath0))
